@@ -85,8 +85,14 @@ def schema_of(c, s):
     return "A" if s % 2 == 1 else "B"
 
 
-def build_world(ctx, wi, c, profile):
-    """Materialise one Order.tla world.  profile = None (probe template; schema modes apply) or a BUILTIN entry."""
+PADS = 9
+
+
+def build_world(ctx, wi, c, profile, pad=False):
+    """Materialise one Order.tla world.  profile = None (probe template; schema modes apply) or a BUILTIN entry.
+    pad: also configure PADS unrelated packages that generate nothing (all: false).  They are outside the model; their
+    only purpose is to push the package map beyond one hash bucket (8 entries), where Go's per-map hash seed makes the
+    relative iteration order of the world's own packages differ from run to run (a small map only rotates)."""
     W, g = c["W"], c["W"]["g"]
     top = ctx.scratch / f"ord{wi}"
     base, runp = top / "base", top / "run"
@@ -118,6 +124,14 @@ def build_world(ctx, wi, c, profile):
         if g["ents"] > 0:
             ent["interfaces"] = {f"I{LAB[k]}1": {"configs": [{"structname": f"E{e}{{{{.InterfaceName}}}}"} for e in range(1, g["ents"] + 1)]}}
         pkgs[path] = ent
+    if pad:
+        for i in range(1, PADS + 1):
+            files[f"{wdir}/zpad{i}/x.go"] = f"package zpad{i}\n\ntype Pad{i} interface{{ P{i}() }}\n"
+            pkgs[f"{MOD}/{wdir}/zpad{i}"] = {"config": {"all": False, "recursive": False, "include-interface-regex": ""}}
+    # the order in which the packages are written in the file is part of the (fixed) input; vary it between worlds
+    keys = list(pkgs)
+    ctx.rng.shuffle(keys)
+    pkgs = {k_: pkgs[k_] for k_ in keys}
     conf = {"force-file-write": True, "packages": pkgs}
     conf.update(rec_root_config(c))
     if conf.get("all") is True and (wi + ctx.seed) % 2 == 1:
@@ -247,6 +261,8 @@ def project_run(w, trace, code):
     wi = w["wi"]
     init = rec_project_events(trace, w["index"], [(wi, w["c"])])[wi]
     out = list(init)
+
+    trace = [e for e in trace if "pkg" not in e or e["pkg"] in w["index"]]      # padding packages are outside the model
 
     def kj(pkg, iface):
         k = w["index"].get(pkg, (None, 0))[1]
@@ -417,10 +433,10 @@ def run(ctx):
         raise MachineryError(f"only {len(chosen)} worlds chosen for replay")
     cap, min_runs = (30, 6) if thorough else (8, 3)
     t0 = time.time()
-    worlds = [build_world(ctx, n, cases[i], prof) for n, (i, prof) in enumerate(chosen)]
+    worlds = [build_world(ctx, n, cases[i], prof, pad=(i in long_runs or (n + ctx.seed) % 3 == 0)) for n, (i, prof) in enumerate(chosen)]
     for w, (i, _) in zip(worlds, chosen):
         if i in long_runs:
-            w["cap"], w["min_runs"] = (40, 16) if thorough else (14, 10)
+            w["cap"], w["min_runs"] = (24, 12) if thorough else (14, 10)
     worlds = par_map(lambda w: run_world(ctx, w, cap, min_runs), worlds, workers=10)
     tick(ctx, "runs", t0)
     t0 = time.time()
@@ -477,6 +493,7 @@ def run(ctx):
             n_fail_worlds += 1
         n_conf = sum(c["W"]["on"])
         orders_evidence.append({"world": w["wi"], "profile": pname, "mode": g["mode"], "runs": len(runs), "exit": sorted(exits),
+                                "padded_with_unrelated_packages": PADS if any("zpad" in p_ for p_ in json.loads((w["base"] / ".mockery.yml").read_text())["packages"]) else 0,
                                 "packages_in_map": n_conf, "initpkg_orders_seen": len(w["seen1"]),
                                 "initpkg_orders_possible_rotations": n_conf, "initpkg_orders_possible_permutations": math.factorial(n_conf),
                                 "files": len(c["outcome"]["files"]), "filebegin_orders_seen": len(w["seenf"]),
